@@ -330,3 +330,30 @@ def rule_H(F, R):
         R.count('H:BDD-derived-impls')
         R.obligation(ok, 'H derived ' + tr)
         if not ok: R.violation('rsbdd::bdd::BDD / H / %s' % tr.split('::')[-1], 'H', '%s for BDD is not the derived structural implementation' % tr)
+
+def rule_E8(F, R):
+    """C13: a formula built with `new_with_env` works in the environment it was given - the `env` field of every ParsedFormula it
+    constructs is the parameter itself (an `Rc` handle to it), never a copy of the environment (a copy has its own node table)"""
+    import flow
+    lib = F.lib()
+    fn = 'rsbdd::parser::ParsedFormula::new_with_env'
+    t = lib.ithir.get(fn)
+    if t is None:
+        R.violation(fn + ' / E8 / anchor', 'UNDECIDABLE', 'new_with_env not found'); return
+    fl = flow.Flow(lib)
+    pvar = None
+    for p in t['params']:
+        if 'pat' in p and p['pat'].get('k') == 'Binding' and 'BDDEnv' in p['ty'].get('s', ''): pvar = p['pat']['var']
+    found = []
+    flow.scan(fl, t['body'], {}, lambda x: x.get('k') == 'Adt' and canon(x.get('adt', '')) == 'rsbdd::parser::ParsedFormula', found)
+    n = 0
+    for node, env in found:
+        for f in node['fields']:
+            if f.get('name') != 'env': continue
+            n += 1
+            v = fl.ev(f['expr'], env)
+            ok = pvar is not None and v == ('param', pvar)
+            R.count('E8:env-field-initialisers'); R.obligation(ok, 'E8 env')
+            if not ok: R.violation(fn + ' / E8 / environment', 'E8', 'the formula must keep the caller\'s environment (an Rc handle to the parameter); found %s - a copied environment has its own node table, so nodes are no longer shared with the caller\'s' % flow.show(v), f['expr'].get('loc'))
+    if n == 0:
+        R.violation(fn + ' / E8 / VACUITY', 'VACUITY', 'no ParsedFormula constructor with an env field found in new_with_env')
